@@ -35,7 +35,7 @@ NOT_APPLICABLE = {
     "C18": "traceback contents are a pure function of program and line layout; no schedule or fault dimension",
 }
 
-IN_PROGRESS = {}
+IN_PROGRESS = {p: "applicable (DESIGN.md section 3) but its check is not built yet; not claimed at this commit" for p in ["C04", "C07", "C08", "C09", "C10", "C13", "C14", "C17", "C19"]}
 
 
 def main():
